@@ -136,6 +136,20 @@ func groupDomain(g group.Group, name string) *domain {
 			return polynomial.New([]group.Scalar{g.HashToScalar(vlib.Bytes(rng, 8), nil), g.HashToScalar(vlib.Bytes(rng, 8), nil)})
 		}},
 	}
+	// an interpolating polynomial through the nodes 1 and 2 (scalars the pool often holds: SetUint64 writes 0..3), seen through its values
+	// at three points that are not nodes
+	const L = 3
+	u64 := func(v uint64) group.Scalar { return g.NewScalar().SetUint64(v) }
+	d.kinds = append(d.kinds, kind{"lagrange", 2, func(o interface{}) []byte {
+		lp := o.(polynomial.LagrangePolynomial)
+		var out []byte
+		for _, x := range []uint64{11, 12, 13} {
+			out = append(out, must(lp.Evaluate(u64(x)).MarshalBinary())...)
+		}
+		return out
+	}, func(rng *rand.Rand) interface{} {
+		return polynomial.NewLagrangePolynomial([]group.Scalar{u64(1), u64(2)}, []group.Scalar{g.HashToScalar(vlib.Bytes(rng, 8), nil), g.HashToScalar(vlib.Bytes(rng, 8), nil)})
+	}})
 	encOf := func(k int, compressed bool) func(rng *rand.Rand, pool [][]interface{}) []byte {
 		return func(rng *rand.Rand, pool [][]interface{}) []byte {
 			o := pool[k][rng.Intn(len(pool[k]))]
@@ -205,6 +219,14 @@ func groupDomain(g group.Group, name string) *domain {
 				*c.recv = c.args[0].(polynomial.Polynomial).Coefficient(uint(c.x[0]))
 				return nil
 			}, weight: 3},
+		{name: "L.New", recv: L, args: []int{S, S}, do: func(c *call) []byte {
+			*c.recv = polynomial.NewLagrangePolynomial([]group.Scalar{u64(1), u64(2)}, []group.Scalar{sc(c.args[0]), sc(c.args[1])})
+			return nil
+		}, weight: 2},
+		{name: "L.Evaluate", recv: S, args: []int{L, S}, do: func(c *call) []byte {
+			*c.recv = c.args[0].(polynomial.LagrangePolynomial).Evaluate(sc(c.args[1]))
+			return nil
+		}, weight: 4},
 		{name: "G.HashToElement", recv: E, x: func(rng *rand.Rand, _ [][]interface{}) []byte { return []byte{byte(rng.Intn(3))} },
 			do: func(c *call) []byte { *c.recv = g.HashToElement(c.x, []byte("dst")); return nil }, weight: 1},
 		{name: "G.Params", recv: -1, do: func(c *call) []byte { p := g.Params(); return []byte(fmt.Sprint(*p)) }, weight: 1},
